@@ -32,7 +32,7 @@
 EXTENDS PcFormats, Json
 
 CONSTANTS PtsN, TrackProfiles, ImgN, ImgProfiles, CamN, CamStarts, SfmRecs, SfmPts, Styles,
-          AttrSets, UniverseId, MaxPx, Scales, NodeProfiles
+          AttrSets, UniverseId, MaxPx, BothOrders, Scales, NodeProfiles
 
 VARIABLES gf, gk, gc
 vars == <<gf, gk, gc>>
@@ -116,7 +116,11 @@ HierFile(S, px, ord) ==
     IN [f0 EXCEPT !.meta.first = ChunkSize(f0, <<>>)]
 HierFiles == {HierFile(S, px, ord) : S \in Trees, px \in {P \in SUBSET Universe : Cardinality(P) <= MaxPx}, ord \in {"fwd", "rev"}}
 \* (chunk roots outside S are ignored; rev differs from fwd only with two or more)
-HierFilesNorm == {f \in HierFiles : f.ord = "rev" => Len(Proxies(f)) >= 2}
+\* with BothOrders = FALSE a file with two or more chunk roots is generated in ONE of the two orders
+\* (chosen by the parity of the roots' names), so both orders still occur across the files
+HierFilesNorm == {f \in HierFiles : LET n == Len(Proxies(f)) IN
+                    IF n < 2 THEN f.ord = "fwd"
+                    ELSE BothOrders \/ ((f.ord = "rev") <=> (Sum([k \in 1..n |-> Base8(Proxies(f)[k])]) % 2 = 0))}
 
 \* octree files
 OPoints(pr, i) ==
